@@ -28,9 +28,10 @@ type Unit struct {
 	Repeat      int      `json:"repeat"`                 // every request is sent this many times in a row (repeat family)
 	SkipRepeat  []string `json:"skip_repeat,omitempty"`  // signature stems whose repeat tail is suppressed (already reported as blocking)
 	Journal     string   `json:"journal,omitempty"`
-	Fresh       bool     `json:"fresh,omitempty"`    // a fresh instance for every request of the batch
-	Sequence    bool     `json:"sequence,omitempty"` // the batch is ONE sequence on one instance (never rebuilt in between)
-	C17         bool     `json:"c17,omitempty"`      // C17 REST clause: absent action => 404 and unchanged key
+	RealNodes   bool     `json:"real_nodes,omitempty"` // controller side: real replica.Server nodes instead of model nodes (classification runs)
+	Fresh       bool     `json:"fresh,omitempty"`      // a fresh instance for every request of the batch
+	Sequence    bool     `json:"sequence,omitempty"`   // the batch is ONE sequence on one instance (never rebuilt in between)
+	C17         bool     `json:"c17,omitempty"`        // C17 REST clause: absent action => 404 and unchanged key
 	WatchdogS   int      `json:"watchdog_s,omitempty"`
 	Requests    []*Req   `json:"requests,omitempty"` // replay files: the concrete requests (informational)
 }
@@ -178,17 +179,26 @@ func serve(h http.Handler, r *Req, wd time.Duration) outcome {
 		}()
 		h.ServeHTTP(rec, hr)
 	}()
+	t := time.NewTimer(wd)
+	defer t.Stop()
 	select {
 	case o := <-done:
 		o.body = rec.Body.Bytes()
 		return o
-	case <-time.After(wd):
+	case <-t.C:
 		return outcome{blocked: true, dump: allStacks()}
 	}
 }
 
 // sigBodyOutcome is the coarse body class of signatures: absent (no body / zero length), unparsable (not JSON), json.
 func sigBodyOutcome(r *Req) string {
+	if r.outcome == "" {
+		r.outcome = sigBodyOutcome1(r)
+	}
+	return r.outcome
+}
+
+func sigBodyOutcome1(r *Req) string {
 	b, has := r.Bytes()
 	if !has || len(b) == 0 {
 		return "absent"
@@ -257,6 +267,7 @@ type runner struct {
 	jf       *os.File
 	results  []*Result
 	batch    []Desc
+	reqs     []*Req
 	trace    bool
 	notes    []string
 	counters map[string]int
@@ -273,6 +284,12 @@ func (rn *runner) journal(l journalLine) {
 // after evaluates the oracles that follow every request on instance x.  It returns the violations, whether the
 // instance (and the process) must be abandoned, and the number of probe requests answered as expected.
 func (rn *runner) after(x instance, d Desc, r *Req, what string) (viol []kernel.Violation, poisoned bool, probesOK int) {
+	return rn.after2(x, d, r, what, false)
+}
+
+// after2 with light=true (repetitions 2..n of the repeat family) sends only the first probe of the fixed set; TryLock,
+// quiescence and the read probe are evaluated as always.
+func (rn *runner) after2(x instance, d Desc, r *Req, what string, light bool) (viol []kernel.Violation, poisoned bool, probesOK int) {
 	add := func(oracle, where, detail string) {
 		viol = append(viol, kernel.Violation{Oracle: oracle, Signature: Signature(oracle, d, r, where), Detail: detail})
 	}
@@ -297,7 +314,10 @@ func (rn *runner) after(x instance, d Desc, r *Req, what string) (viol []kernel.
 		time.Sleep(200 * time.Microsecond)
 	}
 	// (6) well-formed probe requests are still served
-	for _, p := range x.probes() {
+	for pi, p := range x.probes() {
+		if light && pi > 0 {
+			break
+		}
 		pr := &Req{Method: p.Method, URL: p.URL, Header: map[string]string{}}
 		o := serve(x.router(), pr, rn.wd)
 		switch {
@@ -375,7 +395,7 @@ func (rn *runner) exec(x instance, d Desc, r *Req, state string, what string) (o
 }
 
 func (rn *runner) build() error {
-	x, err := newInst(rn.u.Side, rn.u.Class)
+	x, err := newInst(rn.u.Side, rn.u.Class, rn.u.RealNodes)
 	if err != nil {
 		return fmt.Errorf("building state class %s/%s: %v", rn.u.Side, rn.u.Class, err)
 	}
@@ -452,12 +472,13 @@ func (rn *runner) retire(poisoned bool) {
 	if len(hist) == 1 {
 		res := rn.results[hist[0]]
 		d := rn.batch[hist[0]]
+		res.Req = rn.reqs[hist[0]]
 		res.Viol = append(res.Viol, kernel.Violation{Oracle: "probe-write", Signature: Signature("probe-write", d, res.Req, ""), Detail: "after " + res.Desc + ": " + err.Error()})
 		return
 	}
 	rn.counters["write_probe_bisections"]++
 	for _, i := range hist {
-		y, e := newInst(rn.u.Side, rn.u.Class)
+		y, e := newInst(rn.u.Side, rn.u.Class, rn.u.RealNodes)
 		if e != nil {
 			continue
 		}
@@ -505,6 +526,7 @@ func (rn *runner) one(i int) (poisoned bool, err error) {
 	if err != nil {
 		return false, err
 	}
+	rn.reqs[i] = r
 	state := x.state()
 	res.State = state
 	keyBefore := rn.baseKey
@@ -552,7 +574,7 @@ func (rn *runner) one(i int) (poisoned bool, err error) {
 				if !pk {
 					var v2 []kernel.Violation
 					var n int
-					v2, pk, n = rn.after(x, d, r, whatK)
+					v2, pk, n = rn.after2(x, d, r, whatK, true)
 					vk = append(vk, v2...)
 					res.Probes += n
 				}
@@ -631,6 +653,7 @@ func Exec(req *kernel.Request) (resp *kernel.Response) {
 		}
 		rn.batch = append(rn.batch, d)
 		rn.results = append(rn.results, &Result{I: i, Desc: s, Status: -1})
+		rn.reqs = append(rn.reqs, nil)
 	}
 	if err := rn.build(); err != nil {
 		resp.Err = err.Error()
